@@ -344,6 +344,7 @@ package object
 //@ invariant object.PanFunc: self.FuncWrapper != nil && self.Env != nil
 //@ invariant object.Env: self.Store != nil
 //@ invariant object.Pair: isVal(self.Key) && isVal(self.Value)
+//@ invariant map[object.SymHash]object.Pair: isT(self.Key, *object.PanStr)
 //@ invariant object.DeferObj: self.Node != nil
 //@ invariant object.ReturnObj: isVal(self.PanObject)
 //@ invariant object.YieldObj: isVal(self.PanObject)
